@@ -50,6 +50,10 @@ func (f *Frame) calleeMutates(fn *types.Func, depth int, seen map[*types.Func]bo
 	if _, ok := stdHandlers[funcKey(fn)]; ok {
 		return mutInfo{params: make([]bool, np)}
 	}
+	if _, ok := stdHandlersExtra[funcKey(fn)]; ok {
+		// math/big methods write to the ghost heap (havocked separately), not to Go variables
+		return mutInfo{params: make([]bool, np)}
+	}
 	src := f.c.w.funcs[fn]
 	if src == nil || depth > 4 || seen[fn] {
 		return mutInfo{all: true}
